@@ -335,6 +335,7 @@ def run(prog, chk):
     R.tag_casts(prog, chk, "C16.e6", ("Xml::Variant",), floor=4)
     R.acquire_before_release(prog, chk, "C16.e7", ("Xml::Variant",), floor=1)
     R.own_payload_after_release(prog, chk, "C16.e8", fams=("Xml::Variant",), floor=1)
+    R.argument_after_release(prog, chk, "C16.e9", fams=("Xml::Variant",), floor=1)
     # ------------------------------------------------------------------ f
     for f in (rt, sk, pt, pa):
         for s in q.stores(f):
